@@ -3,10 +3,10 @@
 set -e
 cd "$(dirname "$0")"
 mkdir -p ../build/extract
-cp Extract.v conv.ml driver.ml ../build/extract/
+cp Extract.v conv.ml monitor.ml driver.ml ../build/extract/
 cd ../build/extract
 coqc -Q ../../coq/theories ChitchatModel Extract.v > extract.log 2>&1 || { cat extract.log; exit 1; }
-ocamlfind ocamlopt -O3 -w -a -package zarith -linkpkg model.mli model.ml conv.ml driver.ml -o driver 2> ocaml.log \
-  || ocamlfind ocamlopt -w -a -package zarith -linkpkg model.mli model.ml conv.ml driver.ml -o driver 2>> ocaml.log \
+ocamlfind ocamlopt -O3 -w -a -package zarith -linkpkg model.mli model.ml conv.ml monitor.ml driver.ml -o driver 2> ocaml.log \
+  || ocamlfind ocamlopt -w -a -package zarith -linkpkg model.mli model.ml conv.ml monitor.ml driver.ml -o driver 2>> ocaml.log \
   || { cat ocaml.log; exit 1; }
 echo "driver built: $(pwd)/driver"
